@@ -102,7 +102,8 @@ CHECKS["C04"] = {
 CHECKS["C14"] = {
     "level": "fault_enumeration",
     "subs": [
-        _sub("TestC14_Faults", 500, 25000, sq=16, st=16),
+        _sub("TestC14_Faults", 500, 25000, sq=10, st=10),
+        _sub("TestC14_ContinuedTxn", 400, 16000, sq=6, st=6),
     ],
 }
 
